@@ -151,6 +151,21 @@ def _bounded_variance(tier, seed):
                 continue
             if not ok:
                 fails.append({"case": k, "kind": "2d", "component": comp, "fs": fs, "n": nlen, "bin": jb, "what": "length / spacing / variance mismatch"})
+        # energy at and beyond the Nyquist frequency fs/2, short records: the FFT grid k fs/nfft, k < nfft/2, excludes fs/2, so the
+        # series must carry exactly the variance of the bins below it (added after seeded change C16-3 was first missed)
+        fn = np.linspace(0.01, 0.75 * fs, nf)
+        sn = create_1d_spectrum(fn, (1.0 + rng.random(nf))[None, :], 0.0, 0.0, 0.0, depth=np.inf)
+        sn = sn.isel(time=0) if "time" in sn.dims else sn
+        for nshort in (8, 9, 64):
+            for comp in ("z", "w"):
+                evals += 1
+                try:
+                    ok, z = var_check(sn, fs, nshort, comp, sd)
+                except Exception as e:
+                    fails.append({"case": k, "kind": "1d-nyquist", "component": comp, "what": f"raised {type(e).__name__}: {e}"[:200]})
+                    continue
+                if not ok:
+                    fails.append({"case": k, "kind": "1d-nyquist", "component": comp, "fs": fs, "n": nshort, "what": "length / spacing / variance mismatch with energy at fs/2"})
         # reproducibility and scaling
         evals += 1
         for sdx in (0, 1, sd):
